@@ -14,7 +14,7 @@ import random
 
 # Typing imports
 from typing import Dict, Iterator, List, NamedTuple, Optional, Tuple, Union, overload
-from urllib.parse import parse_qsl, urlparse
+from urllib.parse import parse_qsl, urlsplit
 
 # Pycryptodome imports
 try:
@@ -236,7 +236,7 @@ def parse_raw_http(data: bytes) -> Union[HttpRequest, HttpResponse]:
 
     # sanitize uri bytes for `urlparse()` to avoid possible decode errors
     uri = uri.decode("ascii", errors="ignore").encode()
-    result = urlparse(uri)
+    result = urlsplit(uri)
     uri = result.path
     # decode the percent-escapes as latin-1 so that every byte value survives (the sanitized query is ASCII only)
     params = {
